@@ -23,10 +23,12 @@ type c03Case struct {
 	Source string
 	Argv   []string
 	Env    EnvState
+	OnSub  bool // the declarations and the spec belong to a sub-command, not to the application itself
+	Stream StreamPlan
 }
 
 func (c *c03Case) Describe() interface{} {
-	return map[string]interface{}{"decls": describeDecls(c.DS), "spec": c.Spec, "spec_source": c.Source, "argv": c.Argv, "env": c.Env.Describe()}
+	return map[string]interface{}{"decls": describeDecls(c.DS), "spec": c.Spec, "spec_source": c.Source, "argv": c.Argv, "env": c.Env.Describe(), "on_sub_command": c.OnSub, "stream": c.Stream.String()}
 }
 
 type c03Prop struct{}
@@ -46,7 +48,7 @@ func (c03Prop) Phases(tier string) []PhaseCfg {
 	if tier == "thorough" {
 		n = 12_000_000
 	}
-	return []PhaseCfg{{Name: "seeded", Count: n}}
+	return []PhaseCfg{{Name: "seeded", Count: n}, pairPhase(3_000, 200_000, tier)}
 }
 
 var specAlphabet = []byte(" []()|.-=<>ABCDXYSRTOPINabcdef_0\t")
@@ -146,6 +148,13 @@ func nestedRepSpec(t *Tape, ds *DeclSet) string {
 }
 
 func (c03Prop) Gen(t *Tape, ph *PhaseCfg) Case {
+	if ph != nil && ph.P["pair"] == 1 {
+		return genPair(t, func() Case { return c03Prop{}.genOne(t) })
+	}
+	return c03Prop{}.genOne(t)
+}
+
+func (c03Prop) genOne(t *Tape) *c03Case {
 	c := &c03Case{}
 	ds := genDecls(t, 4)
 	c.DS = ds
@@ -188,12 +197,28 @@ func (c03Prop) Gen(t *Tape, ph *PhaseCfg) Case {
 			}
 		}
 	}
+	ownHelp := false
+	for _, d := range ds.Opts {
+		for _, n := range strings.Fields(d.Name) {
+			if n == "h" || n == "help" {
+				ownHelp = true
+			}
+		}
+	}
 	argv := []string{"app"}
 	for _, tok := range toks {
-		if tok == "-h" || tok == "--help" || len(argv) > 6 {
+		// help requests are C14's subject, except when the application declares an option of that name itself
+		if ((tok == "-h" || tok == "--help") && !ownHelp) || len(argv) > 6 {
 			continue
 		}
 		argv = append(argv, strings.ReplaceAll(tok, "\x00", ""))
+	}
+	if t.Draw(3) == 0 {
+		c.OnSub = true
+		argv = append([]string{"app", "sub"}, argv[1:]...)
+	}
+	if t.Draw(4) == 0 {
+		c.Stream = drawStream(t)
 	}
 	c.Argv = argv
 	// every subset of the env-backed declarations
@@ -225,17 +250,36 @@ func safeErrorText(e error) (text string, panicked bool) {
 }
 
 func (c03Prop) Exec(cc Case, st *Stats) *Violation {
+	if g, ok := cc.(*genericPair); ok {
+		return execGenericPair(g, st, func(c Case, id int) *Prepared { return c03Prepare(c.(*c03Case), id) },
+			func(c Case) EnvState { return c.(*c03Case).Env }, func(c Case, e EnvState) { c.(*c03Case).Env = e })
+	}
 	c := cc.(*c03Case)
 	c.Env.Apply()
+	pr := c03Prepare(c, 0)
+	RunProc(pr.Proc, pr.Body)
+	EnvState{}.Apply()
+	return pr.Finish(st)
+}
+
+func c03Prepare(c *c03Case, id int) *Prepared {
 	root := &CmdDecl{Name: "app", Spec: c.Spec, Decls: c.DS.All(), Action: CB{Kind: CBReturn}}
+	if c.OnSub {
+		sub := &CmdDecl{Name: "sub", Spec: c.Spec, Decls: c.DS.All(), Action: CB{Kind: CBReturn}}
+		root = &CmdDecl{Name: "app", Subs: []*CmdDecl{sub}}
+	}
 	app := &AppDecl{Root: root, Policy: flag.ContinueOnError}
 	app.Finish()
-	p := NewProc(0)
-	RunProc(p, func() error {
+	p := NewProc(id)
+	p.Stream = c.Stream
+	body := func() error {
 		inst := Build(app, p)
 		return inst.Cli.Run(c.Argv)
-	})
-	EnvState{}.Apply()
+	}
+	return &Prepared{Proc: p, Body: body, Finish: func(st *Stats) *Violation { return c03Verdict(c, p, st) }}
+}
+
+func c03Verdict(c *c03Case, p *Proc, st *Stats) *Violation {
 	st.Evals++
 	st.Count("spec_source." + c.Source)
 	for range c.Env.Describe() {
@@ -243,7 +287,7 @@ func (c03Prop) Exec(cc Case, st *Stats) *Violation {
 	}
 	actions := 0
 	for _, e := range p.Observed() {
-		if e == "ACT:r" {
+		if e == "ACT:r" || e == "ACT:r.0" {
 			actions++
 		}
 	}
@@ -297,6 +341,10 @@ func (c03Prop) Exec(cc Case, st *Stats) *Violation {
 		if len(st.Samples) < 3 && len(c.Env.Describe()) > 0 && strings.Contains(c.Spec, "...") {
 			st.Sample(c.Describe())
 		}
+		if p.Err == nil && actions == 0 && c03HelpRequested(c) {
+			st.Count("outcome.help_of_an_application_declaring_its_own_h")
+			return nil
+		}
 		if p.Err == nil {
 			if actions != 1 {
 				return &Violation{Clause: "accepted-action-once", Detail: fmt.Sprintf("Run returned nil but the Action ran %d times", actions), Expected: "exactly once", Observed: observed}
@@ -343,4 +391,18 @@ func genManyOptions(t *Tape) *c03Case {
 	c.Argv = argv
 	c.Env = envFor(t, ds.Opts, func(d *Decl) bool { return true })
 	return c
+}
+
+// c03HelpRequested: a -h / --help token before any `--` is a help request even when the application
+// declares an option of that name (the library's help wins): Run prints the help and returns nil.
+func c03HelpRequested(c *c03Case) bool {
+	for _, tok := range c.Argv[1:] {
+		if tok == "--" {
+			return false
+		}
+		if tok == "-h" || tok == "--help" {
+			return true
+		}
+	}
+	return false
 }
